@@ -22,6 +22,7 @@
 #include <cstring>
 
 
+#include <xercesc/dom/DOMException.hpp>
 #include <xercesc/sax/SAXParseException.hpp>
 
 
@@ -814,6 +815,17 @@ XalanTransformer::parseSource(
         FormatXalanDOMException(
             *m_stylesheetExecutionContext,
             e,
+            m_errorMessage);
+
+        theResult = -4;
+    }
+    catch(const xercesc::DOMException&  e)
+    {
+        // The Xerces DOM builder reports some errors (an XML declaration
+        // with an unsupported version, for instance) this way.
+        FormatXalanDOMException(
+            *m_stylesheetExecutionContext,
+            XalanDOMException(XalanDOMException::ExceptionCode(e.code)),
             m_errorMessage);
 
         theResult = -4;
